@@ -5,6 +5,7 @@ The CFG is followed with a small abstract store: locals holding known constants,
 whose subject is known follow one edge; a caller-supplied `atom` callback may decide others (e.g. "this
 boolean is the parameter `catch`, which is true in this table row"); anything else forks.  This is
 dataflow over a finite lattice - no code of the repository is executed and no solver is involved."""
+import re
 from core import *
 from dataflow import *
 from cfgq import *
@@ -116,6 +117,28 @@ class Walker:
             return self.opval(rv['op'], store)
         return UNKNOWN
 
+    def std_model(self, c, store):
+        """models of a few std functions on known abstract values (the `?` operator, Option/Result tests)"""
+        if not c.args:
+            return None
+        a0 = self.opval(c.args[0], store)
+        if c.is_(r'as std::ops::Try>::branch$'):
+            if a0 is not UNKNOWN and a0[0] == 'agg' and a0[2] in ('Ok', 'Some'):
+                return ('agg', 'std::ops::ControlFlow', 'Continue', list(a0[3]))
+            if a0 is not UNKNOWN and a0[0] == 'agg' and a0[2] in ('Err', 'None'):
+                return ('agg', 'std::ops::ControlFlow', 'Break', [a0])
+            return None
+        if c.is_(r'as std::ops::FromResidual<.*>>::from_residual$'):
+            if a0 is not UNKNOWN and a0[0] == 'agg' and a0[2] in ('Err', 'None'):
+                return a0
+            return ('agg', 'residual', 'Err', [UNKNOWN])
+        if c.is_(r'Option::<.*>::is_(some|none)$', r'Result::<.*>::is_(ok|err)$'):
+            if a0 is not UNKNOWN and a0[0] == 'agg' and a0[2] in ('Some', 'None', 'Ok', 'Err'):
+                pos = a0[2] in ('Some', 'Ok')
+                want_pos = bool(re.search(r'is_(some|ok)$', c.name))
+                return ('c', pos == want_pos)
+        return None
+
     def run(self, start=0, store=None):
         self.paths = []
         self._go(start, dict(store or {}), Path(), {})
@@ -154,7 +177,9 @@ class Walker:
             if k in ('call', 'tailcall'):
                 c = Call(body, b, t)
                 path.calls.append((b, c))
-                v = self.call_model(self, c, store) if self.call_model else None
+                v = self.std_model(c, store)
+                if v is None:
+                    v = self.call_model(self, c, store) if self.call_model else None
                 if t.get('dest') and not t['dest'][1]:
                     if v is None: store.pop(t['dest'][0], None)
                     else: store[t['dest'][0]] = v
